@@ -174,6 +174,28 @@ pub fn crude_tokens(text: &str) -> Vec<(usize, usize)> {
     out
 }
 
+/// The text with `filler` inserted after every identifier-like token outside strings and comments
+/// (the layout in which every name is followed by trivia). Preprocessor lines are left alone.
+pub fn spaced(text: &str, filler: &str) -> String {
+    let mut out = String::with_capacity(text.len() * 2);
+    let mut line_is_directive = false;
+    for (s, e) in crude_tokens(text) {
+        let t = &text[s..e];
+        if t.contains('\n') {
+            line_is_directive = false;
+        }
+        if t.starts_with('#') && t.len() > 1 {
+            line_is_directive = true;
+        }
+        out.push_str(t);
+        let first = t.as_bytes()[0];
+        if !line_is_directive && (first.is_ascii_alphabetic() || first == b'_') {
+            out.push_str(filler);
+        }
+    }
+    out
+}
+
 pub const MUTATION_TOKENS: &[&str] = &["x", "1", ";", "{", "}", "<", ">", "(", ":", "=", "class", "\"u", "#ifdef A", "@", "/*u", ","];
 
 /// Every single-token deletion, duplication, adjacent transposition and
